@@ -777,7 +777,8 @@ mut("C23", "warnings_in_hashmap_first", L + "checkers/cwe_476.rs", """    let cw
 mut("C23", "sort_only_text_mode", MAIN, "    all_cwes.sort();\n", "    if !args.json {\n        all_cwes.sort();\n    }\n", ["R2|final-sort"], "JSON output unsorted")
 mut("C23", "SILENT_helper_variable", MAIN, """    let mut all_cwes = Vec::new();
     for module in modules {""", """    let mut all_cwes = Vec::new();
-    let mut unsorted = Vec::new();
+    let mut unsorted: Vec<u8> = Vec::new();
+    unsorted.push(0);
     for module in modules {""", [], "helper variable only (must NOT be reported)")
 
 # ---------------- C03
